@@ -83,7 +83,7 @@ def confirm(outdir, mk, sid, prop):
         shutil.copy(notes, os.path.join(dst, "notes.md"))
     meta = {
         "id": sid, "property": prop, "module": module,
-        "origin": "independent sub-agent (round 3) given only the property text and a scratch worktree; asked for changes that need something specific to manifest",
+        "origin": "independent sub-agent (round " + os.environ.get("SEED_ROUND", "4") + ") given only the property text and a scratch worktree; asked for changes that need something specific to manifest",
         "what_and_needs_to_manifest": (open(notes).read()[:1800] if os.path.exists(notes) else ""),
         "confirmed": {"existing_tests_pass_with_change": True, "demo_fails_with_change": True, "demo_passes_without": True,
                       "how": "tools/seed_round.py confirm: scratch worktree; git apply; go build + go test ./... in ., v2, v3; demo copied into the module with and without the change"},
